@@ -7,7 +7,8 @@
 //   faults  string over {0,1}, one character per submit attempt in global order, 1 = refuse; "-" = none; attempts
 //           beyond the string are accepted
 //   program threads separated by '|', ops separated by ',':
-//     E   queue.execute(item)           item = (thread, op index)
+//     E   queue.execute(T&&)            item = (thread, op index), passed as a temporary
+//     C   queue.execute(const T&)       the copying overload: item passed as a named lvalue (result printed as E<rc>)
 //     S   queue.signal_push_event()     (explicit recovery signal)
 //     J   queue.join()
 // stdout: one line per case:
@@ -38,6 +39,8 @@ namespace {
 
 thread_local int g_cur = -1;   // index of the client thread running this code (-1: spawned consumer thread)
 
+inline bool is_exec(char k) { return k == 'E' || k == 'C'; }
+
 struct Op { char k; std::string res; uint64_t b = 0, e = 0; };
 
 struct World {
@@ -59,14 +62,14 @@ struct World {
   bool dec(uint64_t v, size_t* t, size_t* i) const {
     if ((v >> 32) == 0 || (v >> 32) > threads.size()) return false;
     *t = (size_t)(v >> 32) - 1; *i = (size_t)(v & 0xffffffffu);
-    return *i < threads[*t].size() && threads[*t][*i].k == 'E';
+    return *i < threads[*t].size() && is_exec(threads[*t][*i].k);
   }
   size_t raw(const void* p) const { return *(volatile const size_t*)p; }
   size_t missing(uint64_t before) const {   // items whose execute returned (before stamp `before`, 0 = any) and not consumed
     size_t m = 0;
     for (size_t t = 0; t < threads.size(); ++t)
       for (size_t i = 0; i < threads[t].size(); ++i)
-        if (threads[t][i].k == 'E' && returned[t][i] && consumed[t][i] == 0 && (before == 0 || ret_stamp[t][i] < before)) ++m;
+        if (is_exec(threads[t][i].k) && returned[t][i] && consumed[t][i] == 0 && (before == 0 || ret_stamp[t][i] < before)) ++m;
     return m;
   }
   bool launcher_present() const { for (int x : in_exec) if (x == 2) return true; return false; }
@@ -152,14 +155,17 @@ int main(int argc, char** argv) {
           Op& op = w->threads[t][i];
           op.b = verif::stamp();
           switch (op.k) {
-            case 'E': case 'S': {
+            case 'E': case 'C': case 'S': {
               w->in_exec[t] = 1;
-              int rc = op.k == 'E' ? w->q.execute(World::enc(t, i)) : w->q.signal_push_event();
+              int rc;
+              if (op.k == 'E') rc = w->q.execute(World::enc(t, i));                       // execute(T&&)
+              else if (op.k == 'C') { const uint64_t item = World::enc(t, i); rc = w->q.execute(item); }  // execute(const T&)
+              else rc = w->q.signal_push_event();
               // no scheduling point since the last atomic operation of the call
               w->in_exec[t] = 0;
-              if (op.k == 'E') { w->returned[t][i] = 1; w->ret_stamp[t][i] = verif::stamp(); }
+              if (is_exec(op.k)) { w->returned[t][i] = 1; w->ret_stamp[t][i] = verif::stamp(); }
               if (rc != 0) w->stale = true;
-              op.res = std::string(1, op.k) + std::to_string(rc);
+              op.res = std::string(1, op.k == 'C' ? 'E' : op.k) + std::to_string(rc);
               w->check_covered();
             } break;
             case 'J': {
@@ -188,7 +194,7 @@ int main(int argc, char** argv) {
     if (!w->stale)
       for (size_t t = 0; t < nt; ++t)
         for (size_t i = 0; i < w->threads[t].size(); ++i)
-          if (w->threads[t][i].k == 'E' && w->consumed[t][i] != 1) final_ok = false;
+          if (is_exec(w->threads[t][i].k) && w->consumed[t][i] != 1) final_ok = false;
     size_t events_end = w->raw(&w->q._events);
     bool idle_ok = events_end == 0 && w->live == 0 && w->depth == 0;
     printf("%s ok steps=%llu pre=%llu | %s | once=%d order=%d single=%d covered=%d join=%d final=%d idle=%d stale=%d\n", id,
